@@ -56,13 +56,13 @@ CHECKS = {
    note='Trusted: Coq kernel; R axioms; hand model InterpDefs.v tied by K-matrix; extraction. Cubic exactness in theta is local (periodic unwrapping) and evaluated through the same lag4 lemma.',
    design='5/C09'),
  'C03': dict(
-   technique='Coq proof (per-row equality of the scattered give blocks and the gathered take row for all grid sizes, by block filtering + ring; Dirichlet rows; coefficient admissibility) + complete per-configuration matrix correspondence of ResidualGive/ResidualTake',
+   technique='Coq proof over the residual kernels regenerated from the macro bodies on every run (translator T3: generated take kernel = documented stencil row, generated give kernel = model scatter form, every write a -= into result) and over the model (per-row equality of the scattered give blocks and the gathered take row for all grid sizes, by block filtering + ring; Dirichlet rows; coefficient admissibility) + complete per-configuration matrix correspondence of ResidualGive/ResidualTake',
    text='For every nr >= 4, ntheta = 2Mc >= 4 with pi-periodic spacings, every coefficient array, both boundary modes and every vector: the '
         'row the give kernel accumulates equals the documented take row (all seven row classes incl. across the origin). The real '
         'ResidualGive (sequential and parallel path) and ResidualTake matrices are extracted on random grids x 4 geometries x 7 '
         'profiles x cache flags x 2 levels and compared with the model rows in exact rationals; cached vs fresh coarse coefficients '
         'are compared bitwise.',
-   note='Trusted: Coq kernel; R axioms; hand model StencilDefs.v tied by K-matrix; extraction; LevelCache plumbing (cached = recomputed) is checked on the implementation, not proved.',
+   note='Trusted: Coq kernel; R axioms; translator T3 (macro bodies -> StencilGen.v; proved equal to the hand model StencilDefs.v in StencilTie.v and validated by the K-matrix); extraction; LevelCache plumbing (cached = recomputed) and the call sites of the macros are checked on the implementation, not proved.',
    design='5/C03'),
  'C04': dict(
    technique='Coq proof that both assembly targets are one operator (C03) and that storage order is irrelevant (C16) + row-by-row correspondence of the assembled CSR matrices (guarded friend accessor) + residual-checked direct solves',
@@ -73,14 +73,14 @@ CHECKS = {
    note='Not proved: A(solve b)=b for the sparse LU (C16 partial) and rounding. Hook H2 (friend access) used to read solver_matrix_.',
    design='5/C04'),
  'C05': dict(
-   technique='Coq proof over the scattered-block bilinear form: per-node symmetry (ring), per-node non-negativity (weighted Cauchy-Schwarz + 2x2 discriminant), summed over any node list; discriminant identity 4 arr att - art^2 = alpha^2',
+   technique='Coq proof over the bilinear form of the give kernel as regenerated from NODE_APPLY_A_GIVE (translator T3; gen_form = model form): per-node symmetry (ring), per-node non-negativity (weighted Cauchy-Schwarz + 2x2 discriminant), summed over any node list; discriminant identity 4 arr att - art^2 = alpha^2 + K-matrix correspondence',
    text='For every grid and coefficient array: <A x,y> = <x,A y> on vectors vanishing on Dirichlet nodes, and <A x,x> >= 0 under the '
         'inequalities proved for every invertible mapping. PARTIAL: strict definiteness is evaluated numerically (Rayleigh quotients of '
         'the extracted matrices), and across the origin non-negativity is proved only for art(0,.)=0 (F9).',
    note='Trusted: Coq kernel; R axioms; model tied by the K-matrix of C03 (the matrices the theorems are about are the ones compared).',
    design='5/C05'),
  'C02': dict(
-   technique='Coq proof of the discrete identities behind the order (rhs weight = mass weight, zero row sums of the diffusion part with the exact across-origin defect, Richardson algebra) + operator correspondence',
+   technique='Coq proof of the discrete identities behind the order (rhs weight = mass weight, zero row sums of the diffusion part with the exact across-origin defect, Richardson algebra), with the four loop nests of discretize_rhs_f regenerated from the source (translator T3) and proved to scale every node exactly once by the model weight + operator and rhs correspondence',
    text='PARTIAL: the convergence order itself is asymptotic analysis and is not a theorem; listed as outside the technique in DESIGN.md section 8. '
         'The identities proved are about the same model rows that are compared with the real operator on every run.',
    note='Trusted: Coq kernel; R axioms; K-matrix of C03.',
@@ -129,16 +129,16 @@ CHECKS = {
    note='Trusted: Coq kernel, translator T8, valgrind/sanitizers only as failure search. F7 repaired by a fix: commit.',
    design='5/C20'),
  'C18': dict(
-   technique='Coq proof on a hand model of the grid constructor (window index arithmetic of the anisotropic division for every accepted parameter triple, exact-cover of the output, level-count soundness by induction, uniform / midpoint / bisection divisions over the reals) + K-gridgen correspondence through a guarded trace hook + ASan/UBSan sweep as failing-input search',
+   technique='Coq proof that PolarGrid::checkParameters as regenerated from the source (translator T12) accepts only strictly increasing positive radii / angles from 0 to 2 pi with antipodal partners, and on a hand model of the grid constructor (window index arithmetic of the anisotropic division for every accepted parameter triple, exact-cover of the output, level-count soundness by induction, uniform / midpoint / bisection divisions over the reals) + K-gridgen correspondence through a guarded trace hook + ASan/UBSan sweep as failing-input search',
    text='PARTIAL. Proved for all parameters: every accepted (nr_exp, anisotropic_factor, floor(nr*percentage)) keeps all reads of the anisotropic division in bounds and its three output segments '
         'tile the result exactly; without the guard it does not (F5, repaired by a fix: commit); the level count setup reports is admitted by the grid (every coarsening step defined); '
         'uniform radii start at R0, end at Rmax, increase strictly; midpoint refinement and divideBy2 bisection keep order and ends, nest, and produce midpoints; angles are uniform and '
         'antipodally paired. Evaluated on the implementation in exact arithmetic, not proved: validity of the radii of anisotropic grids (the std::set of refined doubles is not modelled), '
-        'the file round trip (iostream), absence of out-of-bounds accesses outside the modelled index arithmetic (sanitizer sweep).',
+        'the file round trip (iostream), absence of out-of-bounds accesses outside the modelled index arithmetic (sanitizer sweep). checkParameters (T12): every accepted pair of node vectors is strictly increasing, positive, starts at 0 and ends at 2 pi under the code\'s tolerance test and has antipodal partners; repeated or decreasing entries raise the exception (all vector lengths); invalid / valid node vectors are also run on the real constructor.',
    note='Trusted: Coq kernel (classical real-number axioms of the standard library through Reals), hand model tied by K-gridgen, guarded trace hook, extraction.',
    design='5/C18'),
  'C19': dict(
-   technique='Coq proof over expressions regenerated from the C++ sources (translator T7): a symbolic derivative proved correct against Coquelicot is_derive by induction over the expression language, Jacobian / gyro / boundary identities and the manufactured-solution identity by field arithmetic (plus one Interval bound) + K-inputfn validation of the translator against the compiled classes + numeric search for a failing point',
+   technique='Coq proof over expressions regenerated from the C++ sources (translator T7) and over the selection table regenerated from selectTestCase (translator T11: all 128 option combinations, every accepted one selects the five classes of one (problem, profile, geometry) triple): a symbolic derivative proved correct against Coquelicot is_derive by induction over the expression language, Jacobian / gyro / boundary identities and the manufactured-solution identity by field arithmetic (plus one Interval bound) + K-inputfn validation of the translator against the compiled classes + numeric search for a failing point',
    text='PARTIAL. Proved for all points and parameters in the documented ranges: the four Jacobian functions of the circular, Shafranov and Czarny geometries are the partial derivatives of their mappings; '
         'the three gyro profiles have beta = 1/alpha (the Sonnendrucker alpha is positive on the domain), the non-gyro ones beta = 0; the 24 boundary functions are the exact solutions; for 15 source-term classes '
         '(circular geometry x {Poisson, Zoni, ZoniShifted, ZoniGyro, ZoniShiftedGyro} x {CartesianR2, CartesianR6, PolarR6}) rhs_f = -div(alpha grad u) + beta u of the shipped exact solution at every r > 0. '
@@ -147,11 +147,11 @@ CHECKS = {
    note='Trusted: Coq kernel, real-number axioms + classic (Coquelicot) + primitive floats/ints (Interval, one lemma), translator T7 (validated pointwise against the compiled classes on every run).',
    design='5/C19'),
  'C11': dict(
-   technique='Coq proof of race freedom of six work-sharing regions regenerated from the sources (translator T2: loop bounds, strides, nowait, bodies, private scratch) for every grid size, with a concurrency relation that over-approximates every thread count and schedule + K-footprint validation of the task footprints by perturbation + model search and stress replay as failing-input search',
+   technique='Coq proof of race freedom of eight task-parallel regions (translator T2: loop bounds, strides, nowait, bodies, private scratch) and of all 34 owner-computes regions (translator T2b: transfers, caches, rhs build, exact error, extrapolated residual, vector kernels; generic sufficient condition proved once) regenerated from the sources, for every grid size, with a concurrency relation that over-approximates every thread count and schedule + K-footprint validation of the task footprints by perturbation + model search and stress replay as failing-input search',
    text='PARTIAL. Proved for all nr, ntheta, numberSmootherCircles (ntheta even for the smoothers): in ResidualGive/Take::computeResidual, SmootherGive::smoothingForLoop, SmootherTake::smoothing and the two extrapolated smoothers no two '
         'iterations that can overlap (same omp for, or loops separated only by nowait) touch the same element of x, rhs, temp, the result vector, a line-solver object or the solver scratch unless both only read it. '
-        'Finding F12 (race for ntheta % 4 == 2, found while stating the theorem) is repaired by a fix: commit. Not covered: matrix assembly of the direct solver and the smoothers, transfer operators, level caches, '
-        'rhs build, vector kernels, whole setup()+solve(); the OpenMP runtime itself (barriers) is assumed.',
+        'Finding F12 (race for ntheta % 4 == 2, found while stating the theorem) is repaired by a fix: commit. The direct-solver assembly regions (give, take) and the 34 owner-computes regions (grid transfers, injection, FMG interpolation, LevelCache constructors, build_rhs_f, discretize_rhs_f, computeExactError, extrapolatedResidual, vector kernels, Vector / COO copies) are proved race free as well (C11_owner_regions_race_free, stated over the whole regenerated list). '
+        'Not covered: matrix assembly of the smoothers, the MUMPS-only paths, the unused task-based smoother variant; the OpenMP runtime itself (barriers) is assumed.',
    note='Trusted: Coq kernel (axiom-free theorems), translator T2, hand-written footprints validated by K-footprint on every run, the over-approximating concurrency model.',
    design='5/C11'),
  'C12': dict(
